@@ -69,10 +69,13 @@ type Op struct {
 	// (set_url); filtering: the global filtering flag is set to On
 	// (filtering/config).
 	Hold bool `json:"hold,omitempty"`
-	// par (scenarios with DelayedLoop only): Sub[0] is a set_rules call,
-	// Sub[1:] are queries; they and the body of the filtering module's updates
-	// loop run as concurrent tasks under the cooperative scheduler seeded with
-	// Seed, which preempts with probability Pct percent at lock boundaries.
+	// par: Sub holds queries, optionally preceded by one set_rules call
+	// (scenarios with DelayedLoop only); they (and, with a set_rules call, the
+	// body of the filtering module's updates loop) run as concurrent tasks under
+	// the cooperative scheduler seeded with Seed, which preempts with probability
+	// Pct percent at lock boundaries.  The goroutine that a query starts to
+	// switch protection on again after the deadline of a pause is a task of the
+	// phase, too.
 	Seed uint64 `json:"seed,omitempty"`
 	Pct  int    `json:"pct,omitempty"`
 	Sub  []Op   `json:"sub,omitempty"`
@@ -224,14 +227,41 @@ func Gen(t *rapid.T, tier string) any {
 	for i, n := 0, rapid.IntRange(3, maxOps).Draw(t, "n_ops"); i < n; i++ {
 		var op Op
 		k := rapid.IntRange(0, 99).Draw(t, "kind")
-		if l := len(sc.Ops); l > 0 && sc.Ops[l-1].Kind == "to_deadline" && rapid.IntRange(0, 3).Draw(t, "ask_first") != 0 {
+		askFirst := 0
+		if l := len(sc.Ops); l > 0 && sc.Ops[l-1].Kind == "to_deadline" {
+			askFirst = rapid.IntRange(0, 5).Draw(t, "ask_first")
+		}
+		if askFirst >= 4 {
+			k = 100 // several queries at once first thing after the clock was moved to the deadline
+		} else if askFirst != 0 {
 			k = 0 // a query first thing after the clock was moved to the deadline
 		} else if pauseRuns && rapid.IntRange(0, 3).Draw(t, "aim") == 0 {
 			k = 99 // a running pause: move the clock to its deadline soon
 		}
+		// genPar draws a concurrent phase: 2-5 queries, with or without a
+		// custom-rules change (and the updates loop) alongside.
+		genPar := func(withAdmin bool) Op {
+			op := Op{Kind: "par", Seed: rapid.Uint64().Draw(t, "par_seed"), Pct: rapid.SampledFrom([]int{10, 20, 50, 80}).Draw(t, "par_pct")}
+			if withAdmin {
+				op.Sub = append(op.Sub, Op{Kind: "set_rules", Rules: genRules(t, false, 5)})
+			}
+			// (Distinct names: the upstream's exchanges are told apart by name.)
+			for _, name := range rapid.SliceOfNDistinct(rapid.SampledFrom(qnames), 2, 5, rapid.ID[string]).Draw(t, "par_names") {
+				q := genQuery()
+				q.Name = name
+				op.Sub = append(op.Sub, q)
+			}
+			return op
+		}
 		switch {
-		case k < 50 || (k >= 58 && k < 66 && !sc.DelayedLoop):
+		case k >= 100:
+			op = genPar(sc.DelayedLoop && rapid.Bool().Draw(t, "par_admin"))
+		case k < 50 || (k >= 58 && k < 63 && !sc.DelayedLoop):
 			op = genQuery()
+		case k >= 63 && k < 66 && !sc.DelayedLoop:
+			// Several queries at once (the updates loop runs on its own here, so
+			// no rule change alongside).
+			op = genPar(false)
 		case k < 54:
 			// A burst: several rule-changing admin calls back to back, the
 			// updates loop not running in between (held operations).
@@ -246,15 +276,9 @@ func Gen(t *rapid.T, tier string) any {
 		case k < 58:
 			op = Op{Kind: "filtering", On: rapid.IntRange(0, 2).Draw(t, "flt_on") != 0}
 		case k < 66:
-			// A custom-rules change, the updates loop and queries, concurrently.
-			op = Op{Kind: "par", Seed: rapid.Uint64().Draw(t, "par_seed"), Pct: rapid.SampledFrom([]int{10, 20, 50, 80}).Draw(t, "par_pct")}
-			op.Sub = append(op.Sub, Op{Kind: "set_rules", Rules: genRules(t, false, 5)})
-			// (Distinct names: the upstream's exchanges are told apart by name.)
-			for _, name := range rapid.SliceOfNDistinct(rapid.SampledFrom(qnames), 2, 5, rapid.ID[string]).Draw(t, "par_names") {
-				q := genQuery()
-				q.Name = name
-				op.Sub = append(op.Sub, q)
-			}
+			// A custom-rules change, the updates loop and queries, concurrently
+			// (now and then the queries alone).
+			op = genPar(rapid.IntRange(0, 3).Draw(t, "par_admin") != 0)
 		case k < 70:
 			// A storage fault on the file of one of the two lists in the data
 			// directory, and its end (the generator follows whether a fault is
@@ -412,6 +436,9 @@ type runner struct {
 	// abandon: a concurrent phase ended in a deadlock; the parked tasks hold the
 	// node's locks.
 	abandon bool
+	// overlapRules is set while the answers of a concurrent phase that contained
+	// a rule change are judged.
+	overlapRules bool
 }
 
 func (r *runner) answer(req *dns.Msg) *dns.Msg {
@@ -667,7 +694,7 @@ func (r *runner) judge(op Op, rep *dnsnode.Reply, prot, protEnd, first bool, log
 			r.c.Probe("offender_not_first")
 		}
 		if msg := model.CheckBlockedReply(r.bc, name, op.Qtype, nil, rep.Msg); msg != "" {
-			if logBefore < 0 && mixtureEscapes(blockedSets) {
+			if logBefore < 0 && r.overlapRules && mixtureEscapes(blockedSets) {
 				// Every configuration that may be in force blocks a record of
 				// this answer, but not the same one, and the records of one
 				// answer are matched one by one while the rule change goes on.
